@@ -34,6 +34,9 @@ CLAIMED = {
  "C09": dict(level="other", design="3/C09", tech="abstract interpretation (interval/affine/monotonicity, constant propagation) and polynomial value numbering over inlined LLVM IR; AST who-may-call rules",
    text="For color_convert between gray, rgb, rgba and cmyk (8/16-bit and float, several layouts): output channels in range and lossless narrowing for all inputs; rgb->gray monotone per channel and within one unit of 0.30r+0.59g+0.11b, (v,v,v)->v exactly for 8-bit; gray->rgb(a) == channel_convert(gray); black/white end points between rgb, opaque rgba and cmyk; alpha handling, premultiplied-alpha equivalence, same-colour-space == per-channel channel_convert and independence of source/destination layout as equalities of value-numbering normal forms; converters access channels by colour name only and the view/algorithm entry points reach the default converter.",
    note="Level 'other': several clauses are necessary conditions. The c/m/y outputs of rgb(a)->cmyk involve (c-k)*max/(max-k) with k=min(c,m,y): range and narrowing there need relational reasoning and are listed as not decided in spec/c09_inconclusive.json, as are rgb->cmyk->rgb within one level and cmyk interior accuracy. gray<->cmyk end points are outside the property's statement and not checked (the library maps gray black to cmyk K=0)."),
+ "C18": dict(level="other", design="3/C18", tech="interval abstract interpretation with attained bounds over inlined LLVM IR (switch coverage), polynomial value numbering, AST who-may-call",
+   text="Decides the structural clauses of the toolbox converters: every hue-sector switch in hsv/hsl -> rgb covers the whole value range of its selector for hue in [0,1] (an uncovered value with an attained witness input is a violation: this found and the fix repaired hue = 1); gray_alpha -> rgba carries alpha and copies channel_convert(gray), gray_alpha -> rgb/gray == convert(gray*alpha), gray -> rgba sets alpha to max; the double-precision luminance functor has the core weights; every toolbox converter accesses channels by colour name only.",
+   note="Level 'other': necessary conditions. Not decided: the round-trip tolerances and intermediate channel ranges of rgb <-> hsv/hsl/xyz/lab/ycbcr (relational floating-point reasoning over min/max/diff), which is the bulk of the property's numerical content."),
 }
 NA_REASON = {
  "C19": "sums over hash-map contents filled in data-dependent loops; no static domain in reach relates container contents to pixel counts (DESIGN 3/C19)",
